@@ -158,14 +158,20 @@ func UnrankBig(r *big.Int, k int) []uint64 {
 	m := new(big.Int).Set(r)
 	for i := k - 1; i >= 0; i-- {
 		j := uint64(i + 1)
-		// C(l,j) <= m is monotone in l; C(i,j) = 0 <= m; C(l,j) >= l-j+1 so l <= m+j-1.
+		// C(l,j) <= m is monotone in l and C(i,j) = 0 <= m.  Gallop upwards from
+		// l = i to bracket the answer, then bisect.
 		lo := uint64(i)
-		hi := new(big.Int).Add(m, new(big.Int).SetUint64(j))
-		var hiU uint64
-		if hi.IsUint64() {
-			hiU = hi.Uint64()
-		} else {
-			hiU = ^uint64(0)
+		hiU := lo
+		for d := uint64(1); ; d *= 2 {
+			if d == 0 || lo > ^uint64(0)-d {
+				hiU = ^uint64(0)
+				break
+			}
+			if _, ok := Capped(lo+d, j, m); !ok {
+				hiU = lo + d - 1
+				break
+			}
+			lo += d
 		}
 		for lo < hiU {
 			mid := lo + (hiU-lo)/2 + (hiU-lo)%2
